@@ -13,6 +13,7 @@ import (
 	"sort"
 	"strings"
 	"sync"
+	"time"
 
 	"github.com/jf-tech/omniparser"
 	"github.com/jf-tech/omniparser/errs"
@@ -189,14 +190,63 @@ type readerCase struct {
 	Schema   string  `json:"schema"`
 	InputHex string  `json:"input_hex"`
 	Drains   []int   `json:"pool_audits_after_reads"` // record indices after which the pool was drained
+	DrainAll bool    `json:"pool_audit_after_every_read,omitempty"`
+	Second   bool    `json:"second_owner,omitempty"` // a second owner takes nodes from the pool between Reads and holds them
+}
+
+// heldTree is a small tree a second owner built from pooled (or fresh) nodes between two Reads
+// of the reader under audit, with a snapshot of every field of every node.
+type heldTree struct {
+	nodes []*idr.Node
+	snap  []idr.Node
+	after int // built after this Read
+}
+
+func newHeldTree(tag string, after int) *heldTree {
+	root := idr.CreateNode(idr.ElementNode, tag)
+	h := &heldTree{nodes: []*idr.Node{root}, after: after}
+	for i := 0; i < 3; i++ {
+		c := idr.CreateNode(idr.TextNode, fmt.Sprintf("%s.%d", tag, i))
+		idr.AddChild(root, c)
+		h.nodes = append(h.nodes, c)
+	}
+	for _, n := range h.nodes {
+		h.snap = append(h.snap, *n)
+	}
+	return h
+}
+
+// changed reports the first field of a held node that is no longer what its owner left there.
+func (h *heldTree) changed() (msg string) {
+	defer func() {
+		// under a broken allocator two goroutines write the same node: a string header can be torn
+		if p := recover(); p != nil {
+			msg = fmt.Sprintf("a held node could not even be read (%v): it is being written concurrently", p)
+		}
+	}()
+	for i, n := range h.nodes {
+		s := h.snap[i]
+		if n.ID != s.ID || n.Type != s.Type || n.Data != s.Data || n.FormatSpecific != s.FormatSpecific ||
+			n.Parent != s.Parent || n.FirstChild != s.FirstChild || n.LastChild != s.LastChild ||
+			n.PrevSibling != s.PrevSibling || n.NextSibling != s.NextSibling {
+			return fmt.Sprintf("node %d (%q) of a tree its owner holds was modified by someone else: ID %d -> %d, type %d -> %d, data %d -> %d bytes, parent %v -> %v, first child %v -> %v",
+				i, s.Data, s.ID, n.ID, s.Type, n.Type, len(s.Data), len(n.Data), s.Parent != nil, n.Parent != nil, s.FirstChild != nil, n.FirstChild != nil)
+		}
+	}
+	return ""
 }
 
 // auditTransform runs one transform through the public API, audits every tree it hands out
 // (RawRecord().Raw().(*idr.Node), from its root) and what the node pool holds between records
 // (after the reads listed in drains) and at the end.
-func auditTransform(sum *vh.Summary, cw *vh.CaseWriter, format, schema string, in []byte, kind string, drains map[int]bool) {
+func auditTransform(sum *vh.Summary, cw *vh.CaseWriter, format, schema string, in []byte, kind string, drains map[int]bool, opt ...bool) {
+	drainAll, second := len(opt) > 0 && opt[0], len(opt) > 1 && opt[1]
 	s, err := omniparser.NewSchema("fx-"+format, strings.NewReader(schema))
 	if err != nil {
+		if second || drainAll {
+			sum.Hist("reader-special-schema-rejected") // e.g. a target xpath the schema validation refuses
+			return
+		}
 		sum.Fail("fixture schema for "+format+" rejected by NewSchema", map[string]string{"format": format}, err.Error())
 		return
 	}
@@ -209,10 +259,38 @@ func auditTransform(sum *vh.Summary, cw *vh.CaseWriter, format, schema string, i
 		dl = append(dl, k)
 	}
 	sort.Ints(dl)
-	rc := readerCase{Kind: "reader", Format: format, Schema: schema, InputHex: fmt.Sprintf("%x", in), Drains: dl}
+	rc := readerCase{Kind: "reader", Format: format, Schema: schema, InputHex: fmt.Sprintf("%x", in), Drains: dl, DrainAll: drainAll, Second: second}
+	var held []*heldTree
+	heldPtr := map[*idr.Node]bool{}
+	// the second owner: re-audit everything it holds (any change = the reader wrote into a node it
+	// had released), then take four more nodes out of the pool and hold them
+	secondOwner := func(after int, failed *bool) {
+		if !second {
+			return
+		}
+		for _, h := range held {
+			if msg := h.changed(); msg != "" && !*failed {
+				*failed = true
+				sum.Fail("the "+format+" reader modified nodes it no longer owns (after read "+fmt.Sprint(after)+"): "+msg, rc, nil)
+			}
+		}
+		h := newHeldTree(fmt.Sprintf("owner2-%d", after), after)
+		held = append(held, h)
+		for _, n := range h.nodes {
+			heldPtr[n] = true
+		}
+	}
+	failedSecond := false
 	if progressFile != "" {
 		pb, _ := json.Marshal(map[string]interface{}{"case": rc})
 		_ = os.WriteFile(progressFile, pb, 0o644)
+		// watchdog: a reader that walks a cyclic tree never returns; the child then exits and the
+		// parent reports this input
+		wd := time.AfterFunc(10*time.Second, func() {
+			fmt.Println("WATCHDOG: the reader did not return within 10 s on the input named in current.json")
+			os.Exit(3)
+		})
+		defer wd.Stop()
 	}
 	idOwner := map[int64]*idr.Node{}
 	var lastTree []*idr.Node
@@ -244,6 +322,7 @@ func auditTransform(sum *vh.Summary, cw *vh.CaseWriter, format, schema string, i
 		_, err := t.Read()
 		if err != nil {
 			if errs.IsErrTransformFailed(err) {
+				secondOwner(reads, &failedSecond)
 				continue
 			}
 			ended = true
@@ -265,7 +344,12 @@ func auditTransform(sum *vh.Summary, cw *vh.CaseWriter, format, schema string, i
 			}
 			idOwner[x.ID] = x
 		}
-		sum.Count(fmt.Sprintf("%s|%x|%d", format, in, reads), false)
+		for _, x := range nodes {
+			if heldPtr[x] && bad == "" {
+				bad = fmt.Sprintf("it reaches node %q, which the reader released earlier and a second owner has since acquired and holds", x.Data)
+			}
+		}
+		sum.Count(fmt.Sprintf("%s|%x|%d|%v", format, in, reads, second), false)
 		sum.Hist("reader-tree:" + format)
 		sum.Hist("reader-input:" + kind)
 		if bad != "" {
@@ -282,13 +366,17 @@ func auditTransform(sum *vh.Summary, cw *vh.CaseWriter, format, schema string, i
 				next: lab[x.NextSibling], ty: int(x.Type), data: x.Data, fs: fsTerm(x)}
 			recs = append(recs, r.coq())
 		}
-		cw.Add(fmt.Sprintf("TCase (mkTCase %s %s)", vh.CoqList(recs), vh.CoqTree(root)),
-			map[string]interface{}{"kind": "reader-tree", "format": format, "schema": schema, "input_hex": rc.InputHex, "record_index": reads})
+		if !drainAll && !second { // the same trees are sent to the model once
+			cw.Add(fmt.Sprintf("TCase (mkTCase %s %s)", vh.CoqList(recs), vh.CoqTree(root)),
+				map[string]interface{}{"kind": "reader-tree", "format": format, "schema": schema, "input_hex": rc.InputHex, "record_index": reads})
+		}
 		lastTree = nodes
-		if drains[reads] {
+		if drains[reads] || drainAll {
 			poolAudit(fmt.Sprintf("after record %d", reads))
 		}
+		secondOwner(reads, &failedSecond)
 	}
+	secondOwner(-1, &failedSecond)
 	poolAudit("at the end")
 }
 
@@ -309,7 +397,25 @@ func runLate(o *vh.Opts, sum *vh.Summary, cw *vh.CaseWriter) {
 	out, err := cmd.CombinedOutput()
 	b, rerr := os.ReadFile(filepath.Join(dir, "summary.json"))
 	var child vh.Summary
-	if err != nil || rerr != nil || json.Unmarshal(b, &child) != nil {
+	merge := func() {
+		sum.Evaluations += child.Evaluations
+		for k, v := range child.Histogram {
+			sum.Histogram[k] += v
+		}
+		for k, v := range child.Extra {
+			sum.Extra[k] = v
+		}
+		sum.Failures = append(sum.Failures, child.Failures...)
+		cw.Flush()
+		for _, f := range child.CaseFiles {
+			cw.Files = append(cw.Files, filepath.Join("late", f))
+		}
+	}
+	partial := rerr == nil && json.Unmarshal(b, &child) == nil
+	if err != nil || !partial {
+		if partial {
+			merge() // what the child had found before it died (it writes its summary before the risky parts)
+		}
 		var body struct {
 			Case readerCase `json:"case"`
 		}
@@ -319,25 +425,16 @@ func runLate(o *vh.Opts, sum *vh.Summary, cw *vh.CaseWriter) {
 		if len(tail) > 600 {
 			tail = tail[:600]
 		}
-		if body.Case.Kind == "reader" {
+		if body.Case.Kind == "reader" && strings.Contains(string(out), "WATCHDOG") {
+			sum.Fail("the "+body.Case.Format+" reader did not return within 10 s on this input (it walks a tree that has become cyclic)", body.Case, tail)
+		} else if body.Case.Kind == "reader" {
 			sum.Fail("the process died with a fatal runtime error while the "+body.Case.Format+" reader handled this input (a tree it built or released is not sound)", body.Case, tail)
 		} else {
 			sum.Fail("the process died with a fatal runtime error in the misuse / racing part", map[string]interface{}{"kind": "race", "seed": o.Seed}, tail)
 		}
 		return
 	}
-	sum.Evaluations += child.Evaluations
-	for k, v := range child.Histogram {
-		sum.Histogram[k] += v
-	}
-	for k, v := range child.Extra {
-		sum.Extra[k] = v
-	}
-	sum.Failures = append(sum.Failures, child.Failures...)
-	cw.Flush()
-	for _, f := range child.CaseFiles {
-		cw.Files = append(cw.Files, filepath.Join("late", f))
-	}
+	merge()
 }
 
 func readerTrees(r *vh.Rng, sum *vh.Summary, cw *vh.CaseWriter, perFormat int) {
@@ -352,8 +449,13 @@ func readerTrees(r *vh.Rng, sum *vh.Summary, cw *vh.CaseWriter, perFormat int) {
 				}
 			}
 			auditTransform(sum, cw, fx.Format, fx.Schema, in, kind, drains)
+			if k%3 == 0 {
+				// the same input again with a second owner taking pooled nodes between the Reads
+				auditTransform(sum, cw, fx.Format, fx.Schema, in, kind+"+second-owner", nil, r.Chance(0.5), true)
+			}
 		}
 	}
+	specialReaderInputs(r, sum, cw)
 }
 
 // ---- racing acquisitions ------------------------------------------------------------------------
@@ -505,7 +607,7 @@ func main() {
 	}
 	sum := vh.NewSummary("C12", o,
 		"operation histories (CreateNode/CreateXMLNode/CreateJSONNode, AddChild, RemoveAndReleaseTree) on the real idr API with pooling on and off, "+
-			"plus trees handed out by the seven readers, racing acquisitions on 16 goroutines and a recycle soak (one node, and a parent with 3 children, released and re-created 2^24+2^16 times next to nodes that stay live; every new ID compared with all held IDs); non-trivial = the history contains a removal followed by a creation that got a pooled node back; "+
+			"plus trees handed out by the seven readers (also on concatenated / trailing JSON and XML input with root-selecting targets, with the pool drained after every Read and with a second owner that takes pooled nodes between the Reads and re-audits what it holds), racing acquisitions and build-hold-reverify stress from a cold pool on 16 goroutines (repeated in a child built with -race), and a recycle soak (one node, and a parent with 3 children, released and re-created 2^24+2^16 times next to nodes that stay live; every new ID compared with all held IDs); non-trivial = the history contains a removal followed by a creation that got a pooled node back; "+
 			"distinct by (pooling, operation list)")
 	cw := vh.NewCaseWriter(o, "C12", "Base.Tree Model.Heap", "c12case", "check_case")
 	cw.PerFile = 100 // elaborating the case terms dominates the cost of a shard
@@ -513,6 +615,9 @@ func main() {
 	// ---- racing acquisitions: 16 goroutines ----
 	runRace := func() {
 		G, iters := 16, o.Count(300, 6000)
+		if *part == "race-child" {
+			iters = 40
+		}
 		acq, dup, bad := raceIDs(o.Seed, G, iters)
 		sum.Extra["race_goroutines"] = G
 		sum.Extra["race_acquisitions"] = acq
@@ -524,9 +629,19 @@ func main() {
 		if bad != "" {
 			sum.Fail("a goroutine's own tree became unsound while others were acquiring/releasing nodes: "+bad, desc, nil)
 		}
+		// build / hold / re-verify from a cold pool
+		trees, churn := o.Count(3000, 30000), o.Count(60000, 600000)
+		if *part == "race-child" { // under the race detector everything is ~10x slower
+			trees, churn = 400, 6000
+		}
+		hops, hbad := raceHold(o.Seed, G, trees, churn)
+		sum.Extra["race_hold_operations"] = hops
+		if hbad != "" {
+			sum.Fail("nodes held by a goroutine changed, or were handed to two goroutines, while others allocate and release: "+hbad, desc, nil)
+		}
 		if *raceOnly {
-			fmt.Printf("race: %d goroutines, %d acquisitions, duplicate ID: %d, defect: %q\n", G, acq, dup, bad)
-			if dup != 0 || bad != "" {
+			fmt.Printf("race: %d goroutines, %d acquisitions, duplicate ID: %d, defect: %q; hold/verify: %d operations, defect: %q\n", G, acq, dup, bad, hops, hbad)
+			if dup != 0 || bad != "" || hbad != "" {
 				os.Exit(1)
 			}
 			os.Exit(0)
@@ -565,6 +680,17 @@ func main() {
 		}
 		return
 	}
+	if *part == "race-child" {
+		runRace()
+		fmt.Printf("race child: %d failures\n", len(sum.Failures))
+		for _, f := range sum.Failures {
+			fmt.Println(f.What)
+		}
+		if len(sum.Failures) > 0 {
+			os.Exit(5)
+		}
+		return
+	}
 	if *part == "late" && o.Replay != "" {
 		if sc, ok := soakReplay(o.Replay); ok {
 			if sc.FailedAt > 0 && sc.FailedAt+1 < sc.Iterations {
@@ -586,7 +712,7 @@ func main() {
 		}
 		idr.VerifResetNodePool()
 		progressFile = filepath.Join(o.Out, "current.json")
-		auditTransform(sum, cw, rc.Format, rc.Schema, in, "replay", drains)
+		auditTransform(sum, cw, rc.Format, rc.Schema, in, "replay", drains, rc.DrainAll, rc.Second)
 		cw.Flush()
 		sum.CaseFiles = cw.Files
 		sum.Write(o)
@@ -601,7 +727,13 @@ func main() {
 		_ = os.Remove(progressFile)
 		progressFile = ""
 		misuseScripts(sum, cw)
+		_ = os.Remove(filepath.Join(o.Out, "current.json"))
 		runSoak(nil)
+		raceDetectorChild(o, sum)
+		// the summary so far survives a fatal runtime error in the racing part
+		cw.Flush()
+		sum.CaseFiles = cw.Files
+		sum.Write(o)
 		runRace()
 		cw.Flush()
 		sum.CaseFiles = cw.Files
@@ -621,6 +753,7 @@ func main() {
 			// replay of a racing-acquisitions failure: that part only, same seed
 			o.Seed = sd
 			runRace()
+			raceDetectorChild(o, sum)
 			sum.Count(fmt.Sprintf("race|%d", sd), false)
 			sum.Write(o)
 			return
